@@ -18,6 +18,18 @@
       (80h presence ping, 40h presence pong) | message tag | reserved 00h | data length | data;
       pong data: IANA (4) | OEM defined (4) | supported entities (1) | supported interactions
       (1) | reserved (6)  — 16 bytes.
+  * Presence Pong (ASF 2.0 §3.2.4.3, IPMI v2.0 §13.2.4 table 13-6), field by field:
+      message tag            copied from the ping it answers
+      data length            10h
+      IANA enterprise number 4542 when there are no OEM capabilities, then OEM-defined is 00000000h;
+                             otherwise the OEM's number and OEM-defined is the OEM's business
+      supported entities     bit 7 IPMI supported, bits 6:4 reserved, bits 3:0 ASF version (0001b = 1.0);
+                             a BMC says 81h
+      supported interactions bit 7 RMCP security extensions supported (ASF 2.0), bit 5 DASH supported
+                             (DMTF DSP0232), other bits reserved - a CAPABILITY bit field, reserved (00h)
+                             in ASF 1.0 only
+      reserved               six bytes 00h
+    `Pong`, `Pong.WellFormed`, `pongDatagram`, `parsePong` below.
 
   Core only.
 -/
@@ -155,5 +167,48 @@ def pongBytes (tag : Nat) (oemIana : List Nat) (oemDefined : List Nat) (entities
     List Nat :=
   [6, 0, 0xff, 6, 0, 0, 0x11, 0xbe, 0x40, tag, 0, 16] ++ oemIana ++ oemDefined ++
     [entities, interactions, 0, 0, 0, 0, 0, 0]
+
+/-! ### the presence pong field by field (ASF 2.0 §3.2.4.3 / IPMI v2.0 table 13-6) -/
+
+/-- four bytes, most significant first -/
+def be32 (v : Nat) : List Nat := [v / 16777216 % 256, v / 65536 % 256, v / 256 % 256, v % 256]
+
+/-- what a presence pong says -/
+structure Pong where
+  /-- message tag: copied from the ping -/
+  tag : Nat
+  /-- IANA enterprise number of the data block: 4542 when there are no OEM capabilities -/
+  oemIana : Nat
+  /-- OEM-defined capabilities; 0 when `oemIana` = 4542 -/
+  oemDefined : Nat
+  /-- supported entities: bit 7 IPMI, bits 3:0 ASF version -/
+  entities : Nat
+  /-- supported interactions: bit 7 RMCP security extensions, bit 5 DASH -/
+  interactions : Nat
+  deriving Repr, DecidableEq
+
+/-- A pong the format allows: every field fits its width, and the ASF enterprise number comes with
+an all-zero OEM-defined field.  BOTH capability bytes are free: they are bit fields whose reserved
+bits later specifications assign (ASF 2.0 gave bit 7 of the interactions byte a meaning, DASH bit 5),
+so a console has to take a pong whatever they say. -/
+def Pong.WellFormed (p : Pong) : Prop :=
+  p.tag < 256 ∧ p.oemIana < 4294967296 ∧ p.oemDefined < 4294967296 ∧ p.entities < 256 ∧
+    p.interactions < 256 ∧ (p.oemIana = asfIana → p.oemDefined = 0)
+
+instance (p : Pong) : Decidable p.WellFormed := by unfold Pong.WellFormed; infer_instance
+
+/-- the datagram that carries it: RMCP version 6, reserved 0, sequence FFh (no RMCP ACK), class ASF;
+ASF enterprise number 4542, type 40h, tag, reserved 0, data length 10h; the 16 data bytes -/
+def pongDatagram (p : Pong) : List Nat :=
+  [6, 0, 0xff, 6] ++ be32 asfIana ++ [0x40, p.tag, 0, 0x10] ++ be32 p.oemIana ++ be32 p.oemDefined ++
+    [p.entities, p.interactions, 0, 0, 0, 0, 0, 0]
+
+/-- The run-time oracle: the pong a datagram is, if it is a well-formed one (`parsePong_iff`). -/
+def parsePong (d : List Nat) : Option Pong :=
+  match d with
+  | [_, _, _, _, _, _, _, _, _, tag, _, _, i3, i2, i1, i0, o3, o2, o1, o0, ent, inter, _, _, _, _, _, _] =>
+    let p : Pong := ⟨tag, u32le i0 i1 i2 i3, u32le o0 o1 o2 o3, ent, inter⟩
+    if p.WellFormed ∧ d = pongDatagram p then some p else none
+  | _ => none
 
 end PyIpmi.Spec.Lan
